@@ -1,5 +1,5 @@
 (* C09 — Due jobs run in chronological order (statements only). *)
-From EAS Require Import Base Sched SchedInv SchedApi SchedProps.
+From EAS Require Import Base Sched SchedInv SchedApi SchedProps SchedOrder.
 From Coq Require Import Sorted.
 
 (* the queue from whose head jobs are started is sorted by next-run time in every reachable state and
@@ -16,3 +16,24 @@ Theorem C09_invariant_reachable :
     run E fuel hs (init t0 en) ops = (s, rs) -> ~ In NoFuel rs -> Inv s.
 Proof. intros E fuel hs t0 en ops s rs H. exact (run_inv E fuel hs ops _ _ _ (Inv_init t0 en) H). Qed.
 Print Assumptions C09_invariant_reachable.
+
+(* In the wake-up in which several jobs are due (the loop was blocked, the timer fired late) the callables
+   are started in non-decreasing order of their announced next-run times - also across the nested run_jobs
+   calls - and no job twice.  [cx s] lists (job, announced) of the starts of the current operation, newest
+   first; [cx s = []] holds at the beginning of an operation.  Triggers are assumed to answer strictly in the
+   future (that is C04) and not to raise inside execute() (the known finding F5). *)
+Theorem C09_wake_order :
+  forall E, (forall j k t, exists v, prod E j k t = Ok v /\ t < v) ->
+  forall fuel hs s s', Inv s -> cx s = [] -> step_op E fuel hs s OWake = (s', Done) ->
+    StronglySorted (fun x y => snd y <= snd x) (cx s') /\ NoDup (map fst (cx s')).
+Proof. exact wake_order. Qed.
+Print Assumptions C09_wake_order.
+
+(* the same when a disabled scheduler is re-enabled with several overdue jobs *)
+Theorem C09_enable_order :
+  forall E, (forall j k t, exists v, prod E j k t = Ok v /\ t < v) ->
+  forall fuel hs s s', Inv s -> cx s = [] -> enabled s = false ->
+    step_op E fuel hs s (OEnable true) = (s', Done) ->
+    StronglySorted (fun x y => snd y <= snd x) (cx s') /\ NoDup (map fst (cx s')).
+Proof. exact enable_order. Qed.
+Print Assumptions C09_enable_order.
